@@ -172,6 +172,30 @@ class Ctx:
         if not np.all(np.isfinite(x)):
             raise Violation(clause + self.suffix, 'non-finite value in result')
 
+    def fresh(self, fn, clause):
+        """History clause: call fn(), overwrite every writable array of its result in place, call fn() again;
+        the second result must equal what the first call returned (a constructor that hands out a shared cache entry fails)."""
+        import numpy as np
+
+        def leaves(x):
+            if isinstance(x, (list, tuple)):
+                for y in x:
+                    yield from leaves(y)
+            elif isinstance(x, np.ndarray) or type(x).__name__ == 'Tensor':
+                yield x
+        first = list(leaves(fn()))
+        snap = [np.array(_to_np(x), copy=True) for x in first]
+        for x in first:
+            if isinstance(x, np.ndarray):
+                if x.flags.writeable and x.size:
+                    x[...] = 3
+            elif not x.requires_grad and x.numel():
+                x.fill_(3)
+        second = list(leaves(fn()))
+        self.require(len(second) == len(snap), clause, 'different number of arrays in the second call')
+        for a, b in zip(second, snap):
+            self.close(np.asarray(_to_np(a)) * 1, b * 1, 0, clause)
+
     def inconclusive_case(self, why):
         self.inconclusive += 1
         self.labels['inconclusive:' + why] += 1
